@@ -67,15 +67,15 @@ theorem filter_single {α : Type} (q : α → Bool) (l1 l2 : List α) (x : α) (
 /-- **slot_k_only**, general form: `k` is a listed slot, the pods are exactly one per ordinal of `desired ∪ {k}`,
     all healthy, at the update revision, identity and storage in order. Then the reconcile issues exactly one
     action, the deletion of pod `k` — under either policy and whatever the fault plan. -/
-theorem slot_k_only_gen (v : SetView) (cur upd : String) (pods : List Pod) (f : Faults) (r' k : Int)
-    (hr : v.replicas = some r') (h0 : 0 ≤ r') (hk : k ∈ v.slots) (hk0 : 0 ≤ k) (hdel : v.deleting = false)
+theorem slot_k_only_core (v : SetView) (cur upd : String) (pods : List Pod) (f : Faults) (r' k : Int)
+    (hr : v.replicas = some r') (hkD : k ∉ desired r' v.slots)
+    (hkc0 : isCondemned (maxReplicaAndSlots r' v.slots).1 (maxReplicaAndSlots r' v.slots).2 k = true) (hdel : v.deleting = false)
     (hperm : (pods.map Pod.ord).Perm (k :: desired r' v.slots))
     (hgood : ∀ p ∈ pods, p.healthy = true ∧ p.rev = upd ∧ p.idOk = true ∧ p.stOk = true) :
     ∃ pk ∈ pods, pk.ord = k ∧
       (updateStatefulSet v cur upd pods f).1.acts = [.delete k pk.id .scaleDown] ∧
       (f.hit 1 k = false → (updateStatefulSet v cur upd pods f).2 = .ok) := by
   have hDes := desired_isDesired r' v.slots
-  have hkD : k ∉ desired r' v.slots := fun h => hDes.noSlot k h hk
   have hnd : (pods.map Pod.ord).Nodup := by
     rw [hperm.nodup_iff, List.nodup_cons]
     exact ⟨hkD, hDes.sorted.imp (fun h => ne_of_lt h)⟩
@@ -104,7 +104,7 @@ theorem slot_k_only_gen (v : SetView) (cur upd : String) (pods : List Pod) (f : 
   have hD := podOrdinals_eq_of hbe
   rw [podOrdinals_eq_desired'] at hD
   have hkc : isCondemned b E k = true := by
-    have := isCondemned_of_slot h0 hk hk0
+    have := hkc0
     rw [hbe] at this; exact this
   have hcondemned : condemnedOf b E pods = [pk] := by
     unfold condemnedOf
@@ -174,6 +174,38 @@ theorem slot_k_only_gen (v : SetView) (cur upd : String) (pods : List Pod) (f : 
     rw [updateStage_quiet v cur upd f p.reps s'
       (fun ip hip => ⟨(hgood _ (hrepsgood ip hip)).2.1, (hgood _ (hrepsgood ip hip)).1⟩)]
     exact ⟨hacts, fun _ => rfl⟩
+
+/-- `slot_k_only_core` for a listed slot `k ≥ 0` -/
+theorem slot_k_only_gen (v : SetView) (cur upd : String) (pods : List Pod) (f : Faults) (r' k : Int)
+    (hr : v.replicas = some r') (h0 : 0 ≤ r') (hk : k ∈ v.slots) (hk0 : 0 ≤ k) (hdel : v.deleting = false)
+    (hperm : (pods.map Pod.ord).Perm (k :: desired r' v.slots))
+    (hgood : ∀ p ∈ pods, p.healthy = true ∧ p.rev = upd ∧ p.idOk = true ∧ p.stOk = true) :
+    ∃ pk ∈ pods, pk.ord = k ∧
+      (updateStatefulSet v cur upd pods f).1.acts = [.delete k pk.id .scaleDown] ∧
+      (f.hit 1 k = false → (updateStatefulSet v cur upd pods f).2 = .ok) :=
+  slot_k_only_core v cur upd pods f r' k hr (fun h => (desired_isDesired r' v.slots).noSlot k h hk)
+    (isCondemned_of_slot h0 hk hk0) hdel hperm hgood
+
+/-- a non-negative ordinal outside the desired set is condemned -/
+theorem isCondemned_of_not_desired {r : Int} {S : List Int} {k : Int} (hk0 : 0 ≤ k) (hkD : k ∉ desired r S) :
+    isCondemned (maxReplicaAndSlots r S).1 (maxReplicaAndSlots r S).2 k = true := by
+  rcases hbe : maxReplicaAndSlots r S with ⟨b, E⟩
+  have hD := podOrdinals_eq_of hbe
+  rw [podOrdinals_eq_desired'] at hD
+  have hnin : inRange b E k = false := by
+    by_contra h
+    have h' : inRange b E k = true := by simpa using h
+    apply hkD
+    rw [hD]
+    simp only [inRange, Bool.and_eq_true, decide_eq_true_eq, Bool.not_eq_true'] at h'
+    simp only [List.mem_filter, List.mem_map, List.mem_range, Bool.not_eq_true']
+    exact ⟨⟨k.toNat, by omega, by simp [Int.toNat_of_nonneg hk0]⟩, h'.2⟩
+  simp only [isCondemned, hnin, Bool.not_false, Bool.true_and, Bool.or_eq_true, decide_eq_true_eq]
+  simp only [inRange, Bool.and_eq_false_iff, decide_eq_false_iff_not, Bool.not_eq_false'] at hnin
+  rcases hnin with (h | h) | h
+  · omega
+  · left; omega
+  · right; exact h
 
 /-! ### the desired set after listing one of its members and decrementing replicas -/
 
